@@ -1,0 +1,105 @@
+// Copyright 2026 Dolthub, Inc.
+//
+// Licensed under the Apache License, Version 2.0 (the "License");
+// you may not use this file except in compliance with the License.
+// You may obtain a copy of the License at
+//
+//     http://www.apache.org/licenses/LICENSE-2.0
+//
+// Unless required by applicable law or agreed to in writing, software
+// distributed under the License is distributed on an "AS IS" BASIS,
+// WITHOUT WARRANTIES OR CONDITIONS OF ANY KIND, either express or implied.
+// See the License for the specific language governing permissions and
+// limitations under the License.
+
+//go:build verif
+
+package remotesrv
+
+// Machine-checked contracts for /verif (comment-only; see /verif/DESIGN.md §2.2).
+
+// ---- sealed URLs cannot be forged or escape the root (C39): guard structure only
+
+//@ ghost_global verif_ghost
+
+//@ func verif_parseint
+//@   pure
+//@   opaque
+//@ func verif_hasprefix
+//@   pure
+//@   opaque
+//@ func verif_hassuffix
+//@   pure
+//@   opaque
+//@ func verif_contains
+//@   pure
+//@   opaque
+
+//@ extern strconv.ParseInt as verif_x_ParseInt
+//@   modifies nothing
+//@   ensures err == nil ==> n == verif_parseint(s)
+//@ extern time.UnixMilli as verif_x_UnixMilli
+//@   modifies nothing
+//@   ghost_set verif_ghost.uMs = ms
+//@ extern (time.Time).Before as verif_x_Before
+//@   modifies nothing
+//@   ghost_set verif_ghost.uBefore = b
+//@   ghost_set verif_ghost.uBeforeMs = verif_ghost.uMs
+//@ extern (time.Time).After as verif_x_After
+//@   modifies nothing
+//@   ghost_set verif_ghost.uAfter = b
+//@   ghost_set verif_ghost.uAfterMs = verif_ghost.uMs
+//@ extern (*encoding/base64.Encoding).DecodeString as verif_x_DecodeString
+//@   modifies nothing
+//@   ghost_set verif_ghost.uDecPrev = verif_ghost.uDecLast
+//@   ghost_set verif_ghost.uDecLast = b
+//@ extern (crypto/cipher.AEAD).Open as verif_x_aead_Open
+//@   modifies nothing
+//@   ghost_set verif_ghost.uOpened = (err == nil)
+
+// Unseal: a URL is returned only if the request opened under the key with exactly the nonce it carried and with
+// additional data built from the SAME nbf / exp strings whose parsed millisecond values bound the current time
+// (not before nbf, not after exp)
+//@ func (singleSymmetricKeySealer).Unseal
+//@   property C39
+//@   requires !verif_ghost.uOpened
+//@   at call Open: assert !verif_ghost.uBefore && verif_ghost.uBeforeMs == nbf && nbf == verif_parseint(nbfStr)
+//@   at call Open: assert !verif_ghost.uAfter && verif_ghost.uAfterMs == exp && exp == verif_parseint(expStr)
+//@   at call Open: assert verif_sameslice(arg2:[]byte, verif_ghost.uDecPrev) && verif_sameslice(arg3:[]byte, verif_ghost.uDecLast)
+//@   at call Open: assert len(arg4:[]byte) == len(nbfStr)+1+len(expStr)
+//@   ensures  result1 == nil ==> result0 != nil && verif_ghost.uOpened
+//@   also_modifies verif_ghost.uMs, verif_ghost.uBefore, verif_ghost.uBeforeMs, verif_ghost.uAfter, verif_ghost.uAfterMs, verif_ghost.uOpened, verif_ghost.uDecPrev, verif_ghost.uDecLast
+
+//@ extern (github.com/dolthub/dolt/go/libraries/doltcore/remotesrv.Sealer).Unseal as verif_x_Unseal
+//@   modifies nothing
+//@   ghost_set verif_ghost.uUnsealOK = (err == nil)
+//@ extern strings.HasPrefix as verif_x_HasPrefix
+//@   modifies nothing
+//@   ensures b == verif_hasprefix(s, p)
+//@ extern strings.HasSuffix as verif_x_HasSuffix
+//@   modifies nothing
+//@   ensures b == verif_hassuffix(s, p)
+//@ extern strings.Contains as verif_x_Contains
+//@   modifies nothing
+//@   ensures b == verif_contains(s, p)
+//@ extern github.com/dolthub/dolt/go/store/hash.MaybeParse as verif_x_MaybeParse
+//@   modifies nothing
+//@   ghost_set verif_ghost.hParseOK = ok
+
+//@ func validateFileName
+//@   property C39
+//@   trusted event marker only (the upload file-name filter)
+//@   modifies nothing
+//@   ghost_set verif_ghost.hNameOK = result
+
+// the file handler touches the file system only for an unsealed request; a download only for a path that was stripped
+// of ALL leading separators, cleaned, passed the three dot-dot tests and ends in a table-file hash; an upload only on
+// a writable handler and for an accepted file name
+//@ func (filehandler).ServeHTTP
+//@   property C39
+//@   at call TrimLeft#1: assert arg1:string == "/"
+//@   at call readTableFile: assert verif_ghost.uUnsealOK && verif_ghost.hParseOK
+//@   at call readTableFile: assert !verif_hasprefix(path, "../") && !verif_contains(path, "/../") && !verif_hassuffix(path, "/..")
+//@   at call Abs: assert arg1:string == path
+//@   at call writeTableFile: assert verif_ghost.uUnsealOK && !fh.readOnly && verif_ghost.hNameOK
+//@   also_modifies verif_ghost.uUnsealOK, verif_ghost.hParseOK, verif_ghost.hNameOK
